@@ -183,6 +183,17 @@ func slicesHaveSameStructure(original, compacted []interface{}) bool {
 	}
 
 	for i := range original {
+		// an array nested directly in the array: JSON-LD compaction flattens such arrays, so the element at the same
+		// position must still be an array holding the same objects
+		if v1Slice, isSlice := original[i].([]interface{}); isSlice {
+			v2Slice, isSlice2 := compacted[i].([]interface{})
+			if !isSlice2 || !slicesHaveSameStructure(compactSlice(v1Slice), compactSlice(v2Slice)) {
+				return false
+			}
+
+			continue
+		}
+
 		v1Map, isMap := original[i].(map[string]interface{})
 		if !isMap {
 			continue
